@@ -44,7 +44,8 @@ def one(rng, k):
             raise RuntimeError('independent reader disagrees with MEX_HLOG_FIELD_COUNT')
         label = fname
     else:
-        fields = [dict(size=rng.choice([1, 2]), name=rng.choice(['hl_', 'f', 'cnt_']) + '%d_%s' % (j, rng.choice(['crc', 'x', 'failures'])))
+        fields = [dict(size=rng.choice([1, 2]), name=rng.choice(['hl_', 'f', 'cnt_', 'temp\u00e9rature_', '\u00b5', '\u4e2d']) +
+                       '%d_%s' % (j, rng.choice(['crc', 'x', 'failures', '\u00b5\u00b5'])))
                   for j in range(rng.randint(0, 12))]
         # a table may declare the same entry again (reserved / filler fields): same name, same or another width
         for _ in range(rng.choice([0, 0, 1, 2, 3])):
